@@ -57,7 +57,12 @@ def run(tier, replay=None):
     rng = random.Random(seed() * 101 + 10)
     nprog = 10 if tier == "quick" else 120
     base = gen.programs(seed() * 1000 + 10, nprog * 3, features=["neg", "agg", "cmp", "recursion", "mutual", "facts", "str", "arith", "range"])
-    Ps = [q for q in (add_choice(P, rng) for P in base) if q][:nprog]
+    Ps = [q for q in (add_choice(P, rng) for P in base) if q][:nprog - nprog // 2]
+    # integer-only programs: these also go through spec/Ram.tla under several scan orders
+    base_i = gen.programs(seed() * 1000 + 11, nprog * 3, features=["neg", "agg", "cmp", "recursion", "mutual", "facts", "arith", "range"],
+                          dom={"i": [0, 1, 2], "s": ["a"]})
+    base_i = [P for P in base_i if all(t == "i" for r in P["rels"] for t in r["types"])]
+    Ps += [q for q in (add_choice(P, rng) for P in base_i) if q][:nprog // 2]
     jobs = []
     for i, P in enumerate(Ps):
         pdir = os.path.join(wd, "p%d" % i); os.makedirs(pdir, exist_ok=True)
@@ -101,6 +106,44 @@ def run(tier, replay=None):
                 res.violations.append(("choice program run failed (%s, -j%d): %s" % ("compiled" if exe else "interpreter", j, err), d))
             continue
         cases.append({"p": i + 1, "edb": edb, "final": final}); meta.append((job, d))
+    # S/A: the REAL RAM program of each choice program executed by spec/Ram.tla under several scan orders (every
+    # order must give an admissible result): its final databases are judged by the same predicate
+    import itertools
+    from .. import ramcheck, ramjson
+    nspec = 0
+    for i, P in enumerate(Ps):
+        if P.get("types") or any(t != "i" for r in P["rels"] for t in r["types"]):
+            continue
+        pdir = os.path.join(wd, "p%d" % i)
+        fin, ini, err = ramcheck.dump_ram(P, pdir, args=("-j1",), tag="ram")
+        if err:
+            continue
+        try:
+            RP = ramjson.convert(fin)
+        except ramjson.Unsupported:
+            res.count("ram_programs_outside_Ram_tla"); continue
+        edbs = all_edbs(P, rng, 3 if tier == "quick" else 10)
+        orders = [[]] + [list(p) for p in itertools.permutations([0, 1, 2])]
+        dr = os.path.join(pdir, "ram_orders")
+        write_data(dr, "RamData", {"RamProg": RP, "RamEDBs": edbs, "RamExpect": [{"have": False, "m": {}} for _ in edbs], "RamTraces": [],
+                                   "RamSN": [{"have": False, "loops": {}, "att": {}} for _ in edbs], "RamOrders": orders})
+        cfgp = os.path.join(dr, "A.cfg")
+        open(cfgp, "w").write("SPECIFICATION Spec\nINVARIANT LoopHead TempsCleared EmitFinal\nVIEW View\nCHECK_DEADLOCK FALSE\n")
+        rr = tlc.run_tlc(os.path.join(SPEC, "Ram.tla"), cfgp, dr, lib=dr, workers=4, timeout=600)
+        if rr["violated"]:
+            path = os.path.join(dr, "tlc.out"); open(path, "w").write(rr["out"])
+            res.violations.append(("the real RAM program of %s violates %s of spec/Ram.tla under some scan order" % (P["id"], rr["violated"]), path))
+            continue
+        if not rr["ok"]:
+            res.infra_errors.append("Ram.tla (scan orders) on %s: %s" % (P["id"], (rr["error"] or "")[-400:])); continue
+        res.add_tlc(rr)
+        for jf in rr["json"]:
+            if jf.get("tag") == "RAMFINAL" and not jf["oob"]:
+                final = {r["name"]: jf["outs"].get(r["name"], []) for r in P["rels"]}
+                cases.append({"p": i + 1, "edb": edbs[jf["ei"] - 1], "final": final})
+                meta.append(((i, -1, edbs[jf["ei"] - 1], 0, "spec/Ram.tla on the real RAM, scan order %d" % jf["ord"]), None))
+                nspec += 1
+    res.cov["final_databases_from_Ram_tla_scan_orders"] = nspec
     # TLC judges every final database
     dd = os.path.join(wd, "judge")
     write_data(dd, "DatalogData", {"Programs": [for_tlc(P) for P in Ps], "ChoiceCases": cases})
@@ -120,13 +163,18 @@ def run(tier, replay=None):
         i, k, edb, j, exe = job
         if any(len(c["final"][r["name"]]) > 0 for r in Ps[i]["rels"] if r.get("choice")):
             nontriv += 1
-        if not v[0]:
+        if not v[0] and d is None:
+            path = os.path.join(wd, "p%d" % i, "ram_orders", "rejected_%d.json" % idx)
+            json.dump({"program": Ps[i]["id"], "origin": exe, "edb": edb, "final": c["final"], "failed": v[1]}, open(path, "w"), indent=1)
+            res.violations.append(("a final database computed by spec/Ram.tla from the REAL RAM program of %s (%s) violates ChoiceOK (%s): "
+                                   "the translator's guarded-insert scheme admits an inadmissible outcome" % (Ps[i]["id"], exe, v[1]), path))
+        elif not v[0]:
             path = os.path.join(d, "replay.json")
             json.dump({"program": Ps[i]["id"], "dl": os.path.join(wd, "p%d" % i, "p.dl"), "edb": edb, "jobs": j, "compiled": bool(exe),
                        "final": c["final"], "failed": v[1]}, open(path, "w"), indent=1)
             res.violations.append(("final database of a real run violates ChoiceOK (%s) - program %s, -j%d, %s"
                                    % (v[1], Ps[i]["id"], j, "compiled" if exe else "interpreter"), path))
-        else:
+        elif d is not None:
             res.cov["traces_validated_against_impl"] += 1
             shutil.rmtree(d, ignore_errors=True)
     res.cov.update({"programs": len(Ps), "final_databases_judged": len(cases), "with_nonempty_choice_relation": nontriv})
